@@ -4,7 +4,9 @@ import (
 	"bufio"
 	"fmt"
 	"os"
+	"runtime/debug"
 	"strconv"
+	"strings"
 )
 
 var props = map[string]func(*Ctx){}
@@ -34,6 +36,21 @@ func main() {
 		os.Exit(2)
 	}
 	c := NewCtx(prop, tier, seed, outdir)
-	f(c)
+	func() {
+		// a panic that escapes the library into a direct oracle is a finding, not a reason to lose the run
+		defer func() {
+			if r := recover(); r != nil {
+				st := string(debug.Stack())
+				if i := strings.Index(st, "go.lstv.dev/util/"); i >= 0 {
+					st = st[i:]
+				}
+				if len(st) > 700 {
+					st = st[:700]
+				}
+				c.Fail(prop+".oracle.panic", "", "panic while a direct oracle was calling the library: %v; at %s", r, st)
+			}
+		}()
+		f(c)
+	}()
 	c.Finish(outdir)
 }
